@@ -113,7 +113,9 @@ Strings(k) == IF k = 0 THEN {<<>>} ELSE LET s == Strings(k - 1) IN
 Replies == Strings(IF Size > 1 THEN 4 ELSE 3) \cup { <<49, 44, 50>>, <<34, 65, 44, 66, 34>>, <<32, 55, 32>>, <<50, 44, 34, 88, 34>>,
               <<49, 44, 50, 44, 51>>, <<50, 46, 53, 44, 32, 34, 97, 34, 32>>, <<51, 44, 52, 46, 53>>, <<49, 49, 44, 49>>,
               <<34, 65, 34, 66>>, <<44>>, <<44, 44>>, <<49, 44>>, <<45, 49, 44, 49>>, <<51, 50, 55, 54, 56>>,
-              <<49, 69, 50>>, <<49, 101, 49>>, <<38, 72, 49, 70>>, <<38, 49, 55>>, <<38, 104, 49, 102>>, <<49, 68, 49>>, <<46, 53>>, <<43, 51>>, <<49, 46>>, <<49, 69>>, <<69, 49>>, <<38, 72, 71>>, <<38, 56>>, <<50, 46, 53, 69, 45, 49>>, <<49, 69, 43, 49, 44, 38, 72, 55, 70, 70, 70>>, <<45, 46, 53, 44, 34, 65, 44, 66, 34>>, <<32, 49, 50, 32, 44, 32, 32, 88, 32, 89, 32>>, <<34, 34>>, <<34>>, <<49, 44, 34, 65, 34, 34, 66, 34>>, <<38, 44, 49>>, <<49, 46, 53, 46, 50>>, <<45, 45, 49>>, <<49, 32, 50>>, <<34, 65, 34, 32, 44, 34, 66, 34>>, <<55, 44, 44>>, <<38, 72, 56, 48, 48, 48>>, <<57, 57, 57, 57, 57, 44, 49>>, <<49, 69, 53, 44, 49>> }
+              <<49, 69, 50>>, <<49, 101, 49>>, <<38, 72, 49, 70>>, <<38, 49, 55>>, <<38, 104, 49, 102>>, <<49, 68, 49>>, <<46, 53>>, <<43, 51>>, <<49, 46>>, <<49, 69>>, <<69, 49>>, <<38, 72, 71>>, <<38, 56>>, <<50, 46, 53, 69, 45, 49>>, <<49, 69, 43, 49, 44, 38, 72, 55, 70, 70, 70>>, <<45, 46, 53, 44, 34, 65, 44, 66, 34>>, <<32, 49, 50, 32, 44, 32, 32, 88, 32, 89, 32>>, <<34, 34>>, <<34>>, <<49, 44, 34, 65, 34, 34, 66, 34>>, <<38, 44, 49>>, <<49, 46, 53, 46, 50>>, <<45, 45, 49>>, <<49, 32, 50>>, <<34, 65, 34, 32, 44, 34, 66, 34>>, <<55, 44, 44>>, <<38, 72, 56, 48, 48, 48>>, <<57, 57, 57, 57, 57, 44, 49>>, <<49, 69, 53, 44, 49>>,
+              \* hexadecimal digits that are also exponent letters
+              <<38, 72, 68>>, <<38, 104, 49, 100>>, <<38, 72, 68, 69>>, <<38, 72, 69, 44, 38, 72, 100>> }
 Show17 == <<PV(A), PV(AS), PV(BS), PV(NP), PV(I), PV(Arr("A", "A", "", <<LI(3)>>)), PS(<<124>>)>>
 Good == <<51, 44, 52, 44, 53>>     \* "3,4,5" (never acceptable for a single string? it is: whole reply)
 
